@@ -36,7 +36,7 @@ def main():
         elif det:
             c = det[0]
             how = "(%s) %s" % (c, res.get(c, {}).get("site", "").replace("site:", "")[:80])
-        rows.append((sid, own, first_line_of_patch(d), m.get("summary", m.get("needs", ""))[:160], " ".join(det) + ((" ERR:" + " ".join(err)) if err else ""), " ".join(mis), how))
+        rows.append((sid, own, first_line_of_patch(d), (m.get("summary", m.get("needs", "")) + ((" [" + m["scope"] + "]") if m.get("scope") else ""))[:420], " ".join(det) + ((" ERR:" + " ".join(err)) if err else ""), " ".join(mis), how))
     out = ["# Seeded changes and which checks catch them", "",
            "Each change was written by a sub-agent that saw only the property text and a scratch worktree (`own-*` entries are the framework author's).",
            "Confirmed by `tools/seed_confirm.sh` (demo passes on the clean tree; with the patch the tree builds, `make test` exits 0, the demo fails),",
@@ -54,7 +54,8 @@ def main():
             n_det += 1
         if r[1] in r[4].split():
             n_own += 1
-    out += ["", "%d kept changes; %d caught by at least one check; %d caught by the check of the property they were written against." % (n_kept, n_det, n_own), ""]
+    n_scope = sum(1 for mp in glob.glob(os.path.join(VERIF, "seeded", "*", "meta.json")) if json.load(open(mp)).get("scope"))
+    out += ["", "%d kept changes; %d caught by at least one check; %d caught by the check of the property they were written against; %d need an environment answer outside every property's quantifier (allocation failure) and are not caught by design." % (n_kept, n_det, n_own, n_scope), ""]
     open(os.path.join(VERIF, "seeded", "RESULTS.md"), "w").write("\n".join(out))
     print("\n".join(out[-3:]))
 
